@@ -184,17 +184,22 @@ class C20(Check):
     LEVEL = "exploration"
     RULE = ("libFuzzer (clang 14, ASan+UBSan, -fno-sanitize-recover, asserts on) in fork mode over three targets: deck text "
             "through Parser::parseString / root+INCLUDE files through parseFile in four ParseContext modes; the same plus "
-            "EclipseState, Schedule, SummaryConfig from every accepted Deck; byte strings opened as EclFile/ERst/EGrid/ESmry/ERft/EInit "
-            "(formatted and unformatted).  Seeds: shipped decks, grammar-generated decks in rewritten layouts with INCLUDE "
+            "EclipseState, Schedule, SummaryConfig from every accepted Deck; byte strings opened as EclFile/ERst/EGrid/ESmry/ERft/EInit/ExtESmry "
+            "(formatted and unformatted; for unformatted inputs a structure-aware mutator changes one framing field - block length "
+            "marker, element count, type string, header length, truncation, array dropped / doubled, extreme payload word).  Seeds: shipped decks, grammar-generated decks in rewritten layouts with INCLUDE "
             "chunks, shipped and generated result files.  Custom mutator: line/record/keyword/token delete-duplicate-swap-replace "
             "from a dictionary of all deck names and tricky tokens, cut-into-include, splice, 20 % plain byte mutations.  Oracle: "
             "the target returns or the API threw std::exception; sanitizer report, signal, assert, foreign exception or exit() is a "
             "crash artifact.  Second line: Hypothesis-generated grammar decks (rewritten layouts, INCLUDE files) and curated complete "
             "models, 0..3 token/line-level mutations from a dictionary, sent to the ASan+UBSan build of the probe (parse, then "
-            "EclipseState, Schedule, SummaryConfig).  Non-trivial execution: the parser returned a Deck / a reader got past the header (counted in the "
+            "EclipseState, Schedule, SummaryConfig).  Third line (result files): files built by the reference encoder (all array types, C0nn "
+            "widths 1..99, lengths around the block boundaries) or shipped with the tests, 1..3 single-field mutations of the framing, "
+            "opened by every reader in the same probe (checks/c20_ecl.py).  Non-trivial execution: the parser returned a Deck / a reader got past the header (counted in the "
             "target); distinct_nontrivial = coverage-distinct units in the final corpora.")
     ASSUMPTIONS = ["ParseContext actions limited to THROW/WARN/IGNORE (EXIT1 is a deliberate std::exit policy)",
-                   "timeout/oom/slow-unit artifacts are load noise, counted but not violations; 'never hangs' is only a 60 s bound",
+                   "timeout/oom/slow-unit artifacts and 'out-of-memory' on a huge declared size are load / resource exhaustion, counted but not "
+                   "violations; a libFuzzer timeout artifact is re-run under a 110 s CPU limit and a probe request that is not answered within "
+                   "100 s is put to the plain build (300 s): only what fails there too is a hang",
                    "fuzzing shows presence, never absence"]
     LEVEL_TEXT = ("Coverage-guided, structure-aware fuzzing under address and undefined-behaviour sanitizers; every crash artifact is "
                   "re-run three times and keyed by sanitizer kind + top frames inside /repo before it is reported.")
